@@ -22,14 +22,15 @@ def _cases(draw, max_size=9):
     lims = sorted(draw(st.lists(st.floats(min_value=0.0, max_value=1.0), min_size=2, max_size=2)))
     return dict(s=s, k=k, m=m, repeated=draw(st.booleans()), gap=draw(st.sampled_from([1.0, 0.5, 10.0])),
                 extra=extra, lims=lims, virtual_first=draw(st.booleans()), via_labels=draw(st.booleans()),
-                thr_extra=draw(st.lists(st.floats(min_value=0.0, max_value=1.0), max_size=3)))
+                thr_extra=draw(st.lists(st.floats(min_value=0.0, max_value=1.0), max_size=3)),
+                dtype=draw(st.sampled_from([None, None, "float32", "longdouble"])) if s["mode"] in ("grid", "dyadic") else None)
 
 
 def check(case):
     from score_analysis import Scores
 
     s = case["s"]
-    dt = float
+    dt = case.get("dtype") or float  # narrow / extended float containers hold these values exactly
     pos, neg = [float(x) for x in s["pos"]], [float(x) for x in s["neg"]]
     k, m, gap = case["k"], case["m"], case["gap"]
     allv = pos + neg
@@ -103,7 +104,7 @@ def check(case):
                 require(float(err[j]) <= 1e-9 * span, "easy:threshold",
                         lambda: f"{ctx}: threshold_at_{mt}({targets[ok][j]!r}) virtual {tv[ok][j]!r} "
                                 f"materialised {tm[ok][j]!r}")
-    labels = ["repeated" if case["repeated"] else "distinct-extremes", f"mode:{s['mode']}"]
+    labels = ["repeated" if case["repeated"] else "distinct-extremes", f"mode:{s['mode']}", f"dtype:{case.get('dtype') or 'float64'}"]
     if k and m:
         labels.append("both-easy")
     return dict(nontrivial=(k + m > 0) and eligible_total > 0, labels=labels)
